@@ -631,6 +631,9 @@ func respellField(msg []byte, num protowire.Number, isBytes, explicitZero bool) 
 			switch typ {
 			case protowire.VarintType:
 				v, _ := protowire.ConsumeVarint(b[tl:])
+				if protowire.SizeVarint(v) >= 10 {
+					return nil, false // a 10-byte varint has no longer spelling
+				}
 				out = append(append(out, b[:tl]...), longVarint(v)...)
 				done = true
 			case protowire.BytesType:
